@@ -1,5 +1,6 @@
 import RepeVerif.Lemmas.Mux
 import RepeVerif.Gen.Mux
+import RepeVerif.Props.C03
 /-!
 # C04 — Multiplexed calls each receive their own response, whatever the order
 
@@ -34,6 +35,9 @@ clause → theorem
                                                                   `registers_before_write` from the source; witness
                                                                   `lost_response_if_write_first` for the other order)
 * batch results positionally aligned ............................ `batch_aligned`
+* composed with C03's server (`serveSeq`/`respond`): each call
+  returns the response to its own request ....................... `own_response_from_c03_server`,
+                                                                  `c03_response_carries_request_id`, `c03_responses_not_shared`
 -/
 namespace Repe.C04
 open Repe.Mux
@@ -85,7 +89,7 @@ theorem at_most_one_delivery (cfg : Cfg) (s : State) (hs : Reachable cfg s) (c :
   hs.inv.1.chanLen c
 
 /-- …and what a call returned is final. -/
-theorem result_is_final (cfg : Cfg) (s : State) (evs : List Ev) (c : Nat) (o : Outcome)
+theorem result_is_final (cfg : Cfg) (s : State) (evs : List Ev) (c : Nat) (o : Mux.Outcome)
     (h : (s.calls c).pc = .returned o) : ((run cfg s evs).calls c).pc = .returned o :=
   returned_stable_run cfg s evs c o h
 
@@ -230,5 +234,62 @@ theorem batch_aligned {ρ σ : Type} (reqs : List ρ) (evs : List (BEv σ)) (i :
 
 example : (brun (Batch.start (σ := Nat) [10, 20, 30]) [.pop 5, .pop 7, .finish 7 200, .pop 7, .finish 5 100, .finish 7 300]).out
     = [some 100, some 200, some 300] := by decide
+
+/-! ### Composition with C03: the peer is the modelled server
+
+The scripted peer of this property is abstract (any frame sequence).  When it is C03's server — the
+connection loop `serveSeq` answering each request with `respond` — every call gets the response to
+*its own* request: C03 says each response carries its request's id, C04 says a call only ever
+returns a frame with its own id. -/
+
+/-- The frame the client sees for a server response message. -/
+def frameOfMessage (m : Repe.Message) (tag : Nat) : Frame :=
+  { id := m.header.id, notify := m.header.notify != 0, tag := tag }
+
+/-- C03's id clause for one request answered by a built-in path: a rejection (`reject_response`) or a
+handler-returned error (`response_id`) carries the request's id. -/
+theorem c03_response_carries_request_id (t : Repe.Transport) (st : Repe.Step) (hn : st.req.isNotify = false)
+    (hk : (∃ code, Repe.route Repe.Gen.codes st.req st.utf8 st.found = .reject code) ∨
+      ∃ code msg, st.hview = .err code msg ∧ st.howned = .err code msg) :
+    ∀ m, (Repe.respond Repe.Gen.codes t st.req st.utf8 st.found st.hview st.howned).1 = some m →
+      m.header.id = st.req.header.id := by
+  intro m hm
+  rcases hk with ⟨code, hr⟩ | ⟨code, msg, h1, h2⟩
+  · obtain ⟨m', hm', _, hid, _⟩ := Repe.C03.reject_response t st.req st.utf8 st.found st.hview st.howned [] code hr hn
+    rw [hm] at hm'; cases hm'; exact hid
+  · rw [h1, h2] at hm
+    exact Repe.C03.response_id t st.req st.utf8 st.found [] hn code msg m hm
+
+/-- **Own response from C03's server.**  Let the peer be C03's inline connection loop over the steps
+`steps` (the requests it read, each with the environment's decisions), every response of which carries
+its request's id (`c03_response_carries_request_id` for the built-in paths; the handler contract
+`m.header.id = req.header.id` of C03's `query_echo` for handler-made responses).  In any state the client
+reaches by any interleaving, a call that returned one of the server's responses returned the
+response to a request with its own id — and since ids on the connection are distinct (`ids_distinct`),
+that is the request it sent. -/
+theorem own_response_from_c03_server (cfg : Cfg) (s : State) (hs : Reachable cfg s) (t : Repe.Transport)
+    (steps : List Repe.Step)
+    (hid : ∀ st ∈ steps, ∀ m, (Repe.respond Repe.Gen.codes t st.req st.utf8 st.found st.hview st.howned).1 = some m →
+      m.header.id = st.req.header.id)
+    (c : Nat) (m : Repe.Message) (tag : Nat)
+    (hm : m ∈ (Repe.serveSeq Repe.Gen.codes t steps [] 0).1)
+    (hret : (s.calls c).pc = .returned (.resp (frameOfMessage m tag))) :
+    ∃ st ∈ steps, st.req.header.id = (s.calls c).id ∧
+      (Repe.respond Repe.Gen.codes t st.req st.utf8 st.found st.hview st.howned).1 = some m := by
+  rw [Repe.C03.inline_order t steps] at hm
+  simp only [List.mem_filterMap] at hm
+  obtain ⟨st, hst, hresp⟩ := hm
+  refine ⟨st, hst, ?_, hresp⟩
+  have h1 := hid st hst m hresp
+  have h2 := delivery_matches cfg s hs c (frameOfMessage m tag) hret
+  simp only [frameOfMessage] at h2
+  rw [← h1, h2]
+
+/-- …and two calls never share a server response: with distinct request ids on the connection, the
+step found above is the same for nobody else. -/
+theorem c03_responses_not_shared (cfg : Cfg) (s : State) (hs : Reachable cfg s) (c d : Nat) (m : Repe.Message) (tag : Nat)
+    (hc : (s.calls c).pc = .returned (.resp (frameOfMessage m tag)))
+    (hd : (s.calls d).pc = .returned (.resp (frameOfMessage m tag))) : c = d :=
+  never_anothers_response cfg s hs c d _ hc hd
 
 end Repe.C04
